@@ -55,14 +55,18 @@ K7_SEPS = ["#", "\t", "${x}", "%{x}", "\n", "#x", "\r", "$", "%", "a#", " "]
 
 
 def source_aliases():
-    """{canonical name: [aliases]} read from the source by the same extractor that writes GenCollections.v"""
+    """{canonical name: [aliases]}: the aliases the model knows that the source (read by the extractor that
+    writes GenCollections.v) still declares"""
     import sys
     sys.path.insert(0, os.path.join(vlib.ROOT, "lib"))
     sys.path.insert(0, os.path.join(vlib.ROOT, "lib", "gen"))
+    known = {"array_push": ["array_push", "array_add", "array_put"], "array_length": ["array_length", "arrlen", "array_size"],
+             "map_put": ["map_put", "map_add"], "set_put": ["set_put", "set_add"]}     # CollectionsTables.cmd_aliases
     try:
         import gen_from_source
         import c12_gen
-        return {al[0]: al for (_, al, _, _, _) in c12_gen.extract(gen_from_source)}
+        src = {al[0]: al for (_, al, _, _, _) in c12_gen.extract(gen_from_source)}
+        return {k: [a for a in v if a in src.get(k, [])] or [k] for k, v in known.items()}
     except Exception:           # the obligation C12_tables is broken in that case; run without aliases
         return {}
 
@@ -99,13 +103,26 @@ class Gen:
         self.ops = []
         self.allocs = []      # (step, kind)
         self.released = []    # steps
+        self.keys = {}        # step of the allocation -> arguments put into that collection (keys / members / items)
+        self.vals = {}        # step -> map values put
+        self.recent = []      # literal arguments used so far (keys, members, items are asked for again)
         self.allow_k7 = allow_k7
         self.allow_unsafe_exposed = allow_unsafe_exposed
         self.script_weight = script_weight
 
     def value(self):
+        v = self.value0()
+        if v.startswith("="):
+            self.recent.append(v)
+            if len(self.recent) > 12:
+                self.recent.pop(0)
+        return v
+
+    def value0(self):
         r = self.rng
         x = r.random()
+        if self.recent and r.random() < 0.45:
+            return r.choice(self.recent)
         if x < 0.70:
             return lit(r.choice(VALUES))
         if x < 0.85 and self.allocs:
@@ -113,6 +130,18 @@ class Gen:
         n = r.randint(0, 6)
         return lit("".join(chr(r.choice([r.randint(32, 126), r.randint(0xa0, 0x2ff), r.randint(0x4e00, 0x4e80),
                                          r.randint(0x1f600, 0x1f640), r.randint(1, 31)])) for _ in range(n)))
+
+    def known(self, h, table):
+        """mostly something that was put into the collection behind `h` (so that lookups hit), else any value"""
+        if h.startswith("@") and self.rng.random() < 0.65:
+            pool = table.get(int(h[1:]))
+            if pool:
+                return self.rng.choice(pool)
+        return self.value()
+
+    def note(self, h, table, items):
+        if isinstance(h, int) or h.startswith("@"):
+            table.setdefault(h if isinstance(h, int) else int(h[1:]), []).extend(items)
 
     def safe_value(self):
         return lit(self.rng.choice(SAFE_VALUES))
@@ -176,6 +205,7 @@ class Gen:
         a = []
         if name in ("array", "set_new"):
             a = self.some_values(0, 4)
+            self.note(len(self.ops), self.keys, a)
         elif name == "range":
             if r.random() < 0.8:
                 s = r.randint(-3, 5)
@@ -188,6 +218,7 @@ class Gen:
                 a = [lit(x0), lit(x1)]
         elif name in ("array_push",):
             a = [self.handle("A")] + self.some_values(0, 3)
+            self.note(a[0], self.keys, a[1:])
         elif name in ("array_pop", "array_clear", "array_length", "array_is_empty"):
             a = [self.handle("A")]
         elif name in ("array_get", "array_remove"):
@@ -198,14 +229,19 @@ class Gen:
             a = self.some_values(0, 1) if r.random() < 0.1 else []
         elif name == "map_put":
             a = [self.handle("M"), self.value(), self.value()]
+            self.note(a[0], self.keys, [a[1]])
+            self.note(a[0], self.vals, [a[2]])
         elif name in ("map_get", "map_remove", "map_contains_key"):
-            a = [self.handle("M"), self.value()]
+            h = self.handle("M")
+            a = [h, self.known(h, self.keys)]
         elif name in ("map_size", "map_keys", "map_clear", "map_is_empty"):
             a = [self.handle("M")]
         elif name == "set_put":
             a = [self.handle("S")] + self.some_values(0, 3)
+            self.note(a[0], self.keys, a[1:])
         elif name in ("set_remove", "set_contains"):
-            a = [self.handle("S"), self.value()]
+            h = self.handle("S")
+            a = [h, self.known(h, self.keys)]
         elif name in ("set_size", "set_clear", "set_to_array", "set_is_empty"):
             a = [self.handle("S")]
         elif name in ("is_array", "is_map", "is_set"):
@@ -217,7 +253,8 @@ class Gen:
         elif name == "raw":
             a = [str(r.randint(0, 9))]
         elif name == "array_contains":
-            a = [self.handle("A"), self.value()]
+            h = self.handle("A")
+            a = [h, self.known(h, self.keys)]
         elif name == "array_concat":
             a = [self.handle("A", safe=not self.allow_unsafe_exposed) for _ in range(r.choice([0, 1, 2, 2, 3]))]
         elif name == "array_join":
@@ -226,7 +263,8 @@ class Gen:
         elif name == "set_from_array":
             a = [self.handle("A", safe=not self.allow_unsafe_exposed)]
         elif name == "map_contains_value":
-            a = [self.handle("M", safe=not self.allow_unsafe_exposed), self.value()]
+            h = self.handle("M", safe=not self.allow_unsafe_exposed)
+            a = [h, self.known(h, self.vals)]
         if few and a and name != "raw":
             a = a[:r.randrange(len(a))]
         if r.random() < 0.03 and name not in ("raw", "dump"):
@@ -512,7 +550,7 @@ def run(ck):
         m = ck.model(lines)
         im = ck.impl(lines)
         nontriv = set()
-        opcount, outkinds, lens = {}, {}, {}
+        opcount, outkinds, lens, branches = {}, {}, {}, {}
         for k, ((fam, ops), ml, il) in enumerate(zip(hist, m, im)):
             mf, jf = ml.split("\t"), il.split("\t")
             status, step, detail, notes = compare_history(ops, mf, jf)
@@ -529,6 +567,12 @@ def run(ck):
                     opcount[nm] = opcount.get(nm, 0) + 1
                     kk = f[:2] if f[:1] == "E" else f[:1]
                     outkinds[kk] = outkinds.get(kk, 0) + 1
+                    g = f.rstrip("~")
+                    br = ("true" if g == "V116.114.117.101" else "false" if g == "V102.97.108.115.101" else
+                          "handle" if g.startswith("V104.97.110.100.108.101.58") else g[:2] if g[:1] == "E" else
+                          "none" if g == "N" else "value" if g[:1] == "V" else g[:1])
+                    branches.setdefault(nm, {})
+                    branches[nm][br] = branches[nm].get(br, 0) + 1
                 lens[len(ops) // 10 * 10] = lens.get(len(ops) // 10 * 10, 0) + 1
                 if any(f[:1] == "D" and "|" in f for f in mf):
                     nontriv.add(lines[k])
@@ -587,6 +631,7 @@ def run(ck):
             "history_length_distribution": dict(sorted(lens.items())),
             "ops_compared": sum(opcount.values()), "ops_by_command": dict(sorted(opcount.items())),
             "model_output_kinds": dict(sorted(outkinds.items())),
+            "outcomes_by_command": {k: dict(sorted(v.items())) for k, v in sorted(branches.items())},
             "status": stats,
             "samples": [[show_op(o) for o in hist[0][1]], [show_op(o) for o in hist[min(n_corpus + 5, len(hist) - 1)][1]],
                         [show_op(o) for o in hist[-1][1][:12]]],
